@@ -166,13 +166,13 @@ pub fn run(tier: Tier) -> i32 {
         run.stage("f32: all 256 exponent fields x both signs x significand alphabet", json!({"significands": fr.len()}));
     }
     // f64: all 2048 exponent fields x both signs x significand alphabet
-    let fr64 = frac_alphabet(52, if th { 12 } else { 9 }, th);
+    let fr64 = frac_alphabet(52, if th { 14 } else { 9 }, th);
     let exps: Vec<u64> = (0..2048).collect();
     run.par_for(&exps, || {}, |&be, l| { for s in [0u64, 1] { for &f in &fr64 { case64((s << 63) | (be << 52) | f, l); l.distinct += 1; } } });
     run.stage("f64: all 2048 exponent fields x both signs x significand alphabet", json!({"significands": fr64.len()}));
     // tie zone: t * 2^-19 for odd t (exact ties at the 18th digit: 2^-19 * 10^18 = 5^18/2) and neighbours one ulp either side
     let mut ts: Vec<u64> = Vec::new();
-    for t in 0..(if th { 400_000u64 } else { 60_000 }) { ts.push(2 * t + 1); }
+    for t in 0..(if th { 4_000_000u64 } else { 60_000 }) { ts.push(2 * t + 1); }
     for k in 20..=52u32 { for d in [1u64, 3, 5, 7, 9, 11] { ts.push((1u64 << k) + d); ts.push((1u64 << k).wrapping_sub(d)); if k < 52 { ts.push((1u64 << k) + (1u64 << (k / 2)) + d); } } }
     ts.retain(|t| *t < (1u64 << 53) && t % 2 == 1);
     ts.sort(); ts.dedup();
@@ -186,6 +186,20 @@ pub fn run(tier: Tier) -> i32 {
         if (f32v as f64) == (t as f64) * 2f64.powi(-19) { let b = f32v.to_bits(); for nb in [b - 1, b, b + 1] { case32(nb, l); l.distinct += 1; } }
     });
     run.stage("tie zone", json!({"odd_t": ts.len(), "forms": "t*2^-19 (exact ties at the 18th digit), t*2^-{20,21,25,40,60}, one ulp either side, both signs"}));
+    // round-trip family: the floats nearest to decimals c*10^-s for every coefficient of the boundary
+    // alphabet (digit-count boundaries, 2^k +- 1 incl. the 2^24 / 2^53 precision limits, word boundaries)
+    // at every scale, with one-ulp neighbours and both signs
+    let kal = crate::alpha::coeffs(2, 50, if th { crate::alpha::Level::Thorough } else { crate::alpha::Level::Mid });
+    run.par_for(&kal, || {}, |&cf, l| {
+        if cf <= 0 { return; }
+        for s in 0..=18u8 {
+            let b = crate::c12::f64_bits(false, crate::c12::round_to_float(cf as u128, s, 53));
+            for nb in [b - 1, b, b + 1] { case64(nb, l); case64(nb | (1u64 << 63), l); l.distinct += 2; }
+            let b = crate::c12::f32_bits(false, crate::c12::round_to_float(cf as u128, s, 24));
+            for nb in [b - 1, b, b + 1] { case32(nb, l); case32(nb | (1u32 << 31), l); l.distinct += 2; }
+        }
+    });
+    run.stage("round-trip family", json!({"coefficients": kal.len(), "scales": 19, "form": "nearest float to c*10^-s, +-1 ulp, both signs, f64 and f32"}));
     // range limits: around 2^127, the largest fractional values, subnormals
     run.seq(|l| {
         for k in 100..=130 { let f = 2f64.powi(k); let b = f.to_bits(); for nb in [b - 2, b - 1, b, b + 1, b + 2] { case64(nb, l); case64(nb | (1u64 << 63), l); } }
